@@ -58,7 +58,9 @@ impl Replayer {
         let mut sugs: HashMap<u64, SugH> = HashMap::new();
         let mut strs: HashMap<u64, *mut c_char> = HashMap::new();
         let mut bad: Option<(usize, String)> = None;
-        let mut nkeys = 0usize;
+        // (the key cycle starts at another place in every sequence: words that BEGIN with a full stop, a colon or the escape
+        // character - punctuation-only compositions - are read out as well)
+        let mut nkeys: usize = (self.rep.behaviours as usize) % WORD.len();
         let mut layouts: HashMap<u64, bool> = HashMap::new();
         clean_home(&self.home);
         let r = std::panic::catch_unwind(std::panic::AssertUnwindSafe(|| unsafe {
